@@ -648,6 +648,26 @@ theorem safeExcept_sound {tbl : Table} {fuel f : Nat} {k : List Nat} (hs : safeE
     | some T' =>
       exact (sound C tbl _ _ _ _ _ hex fuel _ T' ha (fun x l hx hc => mem_maskOf.mpr (hi x l hx hc))).1
 
+/-- the semantic statement of C13 for function `f` of table `tbl`: in every execution of its body — completed or left by an
+    exception — from every frame in which caller-owned locations are reachable only through the parameters, no write
+    hits a caller-owned location -/
+def NoCallerWrite (tbl : Table) (f : Nat) : Prop :=
+  ∃ d, lookup tbl f = some d ∧
+    ∀ (C : Loc → Prop) (e e' : Env) (w : Loc → Prop) (fin : Bool), (∀ x l, e x l → C l → x ∈ d.params) →
+      Exec C tbl d.body e e' w fin → ∀ l, w l → ¬ C l
+
+/-- the same for a `copy=False` variant: arrays reachable only through the parameters *not* at the positions `k` -/
+def NoCallerWriteExcept (tbl : Table) (f : Nat) (k : List Nat) : Prop :=
+  ∃ d, lookup tbl f = some d ∧
+    ∀ (C : Loc → Prop) (e e' : Env) (w : Loc → Prop) (fin : Bool), (∀ x l, e x l → C l → x ∈ dropAt k 0 d.params) →
+      Exec C tbl d.body e e' w fin → ∀ l, w l → ¬ C l
+
+theorem noCallerWrite_of_safe {tbl : Table} {fuel f : Nat} (hs : safe tbl fuel f = true) : NoCallerWrite tbl f :=
+  safe_sound hs
+
+theorem noCallerWriteExcept_of_safeExcept {tbl : Table} {fuel f : Nat} {k : List Nat}
+    (hs : safeExcept tbl fuel f k = true) : NoCallerWriteExcept tbl f k := safeExcept_sound hs
+
 /-! ### non-vacuity -/
 
 /-- 1 = `binarize(W, copy=True)`: `W = W.copy(); W[..] = 1; return W`;  2 = the `copy=False` path;
